@@ -23,6 +23,8 @@ type driver struct {
 
 var drivers = map[string]*driver{}
 
+var theCtx *ctx
+
 func register(name, help string, run func(*ctx)) { drivers[name] = &driver{name, help, run} }
 
 type ctx struct {
@@ -103,7 +105,10 @@ func main() {
 			}
 		}
 	}
+	theCtx = c
+	installLogCapture()
 	d.run(c)
+	finishLogScan(c)
 	c.out.Flush()
 	if *stats != "" {
 		writeJSON(*stats, map[string]any{"lines": c.n, "distribution": c.stats})
